@@ -206,6 +206,73 @@ func runC06(c *fw.Ctx) {
 	if c.Want(0, "exh/done") {
 		c.Count("exhaustive_spaces_completed", 1)
 	}
+	// ---- portions whose terms do not fit a machine word (ratios beyond 2^64, percentages with
+	// more than 19 significant digits), as literals and as variables, used in two statements ----
+	for i := 0; i < c.N(800, 30000); i++ {
+		id := "wide-terms/" + itoa(i)
+		if !c.Want(43_000_000+i, id) {
+			continue
+		}
+		r := c.Rng(id)
+		d := new(big.Int).Add(r.Big(r.Range(65, 200)), new(big.Int).Lsh(big.NewInt(1), 64))
+		n := new(big.Int).Mod(r.Big(210), new(big.Int).Add(d, big.NewInt(1)))
+		p := new(big.Rat).SetFrac(n, d)
+		text := n.String() + "/" + d.String()
+		if r.Chance(1, 3) {
+			// a percentage with 20..40 significant decimals
+			dec := r.Range(20, 40)
+			digits := randDigits(r, dec)
+			text = fmt.Sprintf("%d.%s%%", r.Intn(100), digits)
+			p, _ = model.ParsePercentText(text)
+		}
+		ps := []*big.Rat{p, new(big.Rat).Sub(big.NewRat(1, 1), p)}
+		var head gen.Allot
+		var vars []*gen.VarDecl
+		vals := map[string]string{}
+		if r.Chance(2, 3) {
+			vars = []*gen.VarDecl{{Type: "portion", Name: "p0"}}
+			vals["p0"] = text
+			head = &gen.AllotVar{V: gen.V("p0")}
+		} else if strings.HasSuffix(text, "%") {
+			head = &gen.AllotLit{Lit: &gen.Percent{Text: text}}
+		} else {
+			head = &gen.AllotLit{Lit: &gen.Ratio{Text: text}}
+		}
+		heads := []gen.Allot{head, &gen.AllotRemaining{}}
+		if r.Bool() {
+			heads[0], heads[1] = heads[1], heads[0]
+			ps[0], ps[1] = ps[1], ps[0]
+		}
+		side, side2 := r.Intn(2), r.Intn(2)
+		sc := allotScript(heads, side, vars)
+		secondUse(sc, heads, side2)
+		total, total2 := gen.SmallOrBig(r, 40), gen.SmallOrBig(r, 40)
+		vals["n"], vals["n2"] = "USD "+total.String(), "USD "+total2.String()
+		cs := mkCase(sc, vals, nil)
+		e, ok := run(c, cs)
+		if !ok {
+			continue
+		}
+		if e.out.Panicked {
+			c.Violation("panic:"+e.out.Frame, "panic: "+e.out.PanicVal, e.input())
+			return
+		}
+		if !e.out.OK() {
+			c.Violation("allot-failed", fmt.Sprintf("a valid allotment (%s and remaining, used in two statements) failed: %s (%v)", text, e.out.Summary(), e.out.Err), e.input())
+			return
+		}
+		c.Count("wide_term_portions", 1)
+		c.Count("shares_checked", 4)
+		if msg := checkShares(ps, total, observeShares(e, 2, side)); msg != "" {
+			c.Violation("shares", fmt.Sprintf("%s; portions %v total %s", msg, ps, total), e.input())
+			return
+		}
+		if msg := checkShares(ps, total2, observeSharesP(e, 2, side2, "e")); msg != "" {
+			c.Violation("shares-second-use", fmt.Sprintf("second use of the same portions: %s; portions %v total %s", msg, ps, total2), e.input())
+			return
+		}
+		c.Distinct(fmt.Sprintf("wide|%d|%d|%d|%v", side, side2, d.BitLen(), len(vars) > 0))
+	}
 	// ---- an allotment whose portions do not add up to one, nested in a clause of an outer
 	// allotment: every clause of an allotment is distributed to, whatever its share (zero
 	// portion, floor share of zero, nothing to split), so the inner one must be rejected ----
